@@ -79,12 +79,12 @@ func unpublished(fn *ssa.Function, addr ssa.Value) bool {
 	}
 	// pre-publication code: the connecting client is private to its goroutine until Clients.Add
 	// (ParseConnect and inheritClientSession run before it; checked by prePublication below)
-	if p, ok := r.(*ssa.Parameter); ok && p.Name() == "cl" && (name == "ParseConnect" || name == "inheritClientSession") {
+	if p, ok := r.(*ssa.Parameter); ok && canonName(p, p.Name()) == "cl" && (name == "ParseConnect" || name == "inheritClientSession") {
 		return true
 	}
 	if u, ok := r.(*ssa.UnOp); ok {
 		if fa, ok := u.X.(*ssa.FieldAddr); ok && (name == "ParseConnect" || name == "inheritClientSession") {
-			if p, ok := rootOfAddr(fa).(*ssa.Parameter); ok && p.Name() == "cl" {
+			if p, ok := rootOfAddr(fa).(*ssa.Parameter); ok && canonName(p, p.Name()) == "cl" {
 				return true // e.g. cl.State.Inflight.<field>: the new client's own fresh store
 			}
 		}
